@@ -206,6 +206,8 @@ def point_set(rng, kind, ndim, n, m2=None):
     if kind == 'grid':
         m = {1: 9, 2: m2 or rng.choice([3, 4, 5]), 3: 3, 4: 3, 5: 2}[ndim]
         return [tuple(F(c) for c in p) for p in itertools.product(range(m), repeat=ndim)]
+    if kind == 'grid6':
+        return [tuple(F(c) for c in p) for p in itertools.product(range(6), repeat=ndim)]
     if kind == 'cluster-fixed':      # deterministic: tight triplets (spacing 1/64) on the corners of a cube of side 3
         pts = []
         for c in itertools.product((0, 3), repeat=ndim):
@@ -307,6 +309,7 @@ def run(ctx):
     by_code = {e['code']: e for e in entries}
     found_input = False
     st = {'found': False}
+    ctx.bad_struct = {}; ctx.bad_aniso = set()
 
     def viol(key, text, replay, found=True):
         if found: st['found'] = True
@@ -403,6 +406,7 @@ def run(ctx):
             ctx.count('closed:%d:%s:%d:%s' % (e['code'], param, ndim, h), True)
             scale = max(1., float(field), float(h)) ** DEG.get(e['code'], 1) if e['code'] in FIELD else 1.0
             if not inside(v, enc, tol_of(e['code']), scale):
+                ctx.bad_struct[short(e)] = 'closed-form:' + short(e)
                 viol('closed-form:' + short(e), 'ACovFunc::evalCov of %s (param %s, ndim %d, field %s) at h = %s returns %r, the published closed form gives %r'
                      % (e['name'], param, ndim, field, h, float(v) if v is not None else None, float(enc[0])),
                      {'case': sx_str([0, c[1], c[2], c[3], c[4], [dy(h)]]), 'h': str(h), 'impl': str(v), 'model': [str(enc[0]), str(enc[1])],
@@ -450,7 +454,7 @@ def run(ctx):
     corpus = load_corpus(ctx)
     for c in corpus:
         if c[0] == 1:
-            cases1.insert(0, c); meta1.insert(0, None)
+            cases1.insert(0, c); meta1.insert(0, meta_from_case(c, by_code))
     res1 = correspond_structs(ctx, exe, runner, cases1, meta1, by_code, viol)
 
     ctx.log('structures done')
@@ -497,6 +501,20 @@ def run(ctx):
         'only their validity-table entries, text hash and numerical PSD exploration are covered',
         'third parameter: Matern 1/2, 3/2, 5/2; Stable 1/2, 1, 3/2, 2; Cauchy/Gamma integer; Power 1 (constant term harvested from the implementation)',
         'scadef of Matern/Stable/Cauchy/Gamma is harvested from the implementation and checked against its formula in floating point only']
+
+def meta_from_case(c, by_code):
+    """meta-data of a stored case (corpus): structure names, setter paths, mode"""
+    ms = []
+    for s in c[3]:
+        e = by_code[s[0]]
+        ms.append({'code': s[0], 'param': undy(s[1]), 'path': s[2], 'vals': [undy(v) for v in s[3]], 'rotspec': s[4], 'name': e['name'], 'short': short(e),
+                   'hasrange': e['hasrange'], 'sill': [[undy(t) for t in r] for r in s[5]]})
+    md = c[4]
+    if md == []: mn = 'default'
+    elif md[2] != 0: mn = 'orderVario'
+    elif md[3] != []: mn = 'activeList'
+    else: mn = {(1, 0): 'asVario', (0, 1): 'unitary', (1, 1): 'asVario+unitary'}.get((md[0], md[1]), 'default')
+    return {'structs': ms, 'mode': mn, 'ndim': c[1], 'nvar': c[2]}
 
 def load_corpus(ctx):
     p = os.path.join(VERIF, 'corpus', ctx.pid + '.sx')
@@ -550,7 +568,9 @@ def correspond_structs(ctx, exe, runner, cases, metas, by_code, viol):
     _, mo = run_model(ctx, runner, cfm)
     if len(mo) != len(mcases): print('ERROR: model runner returned %d results for %d cases' % (len(mo), len(mcases))); sys.exit(3)
     ndis = 0
-    for a, k in enumerate(idx):
+    order = sorted(range(len(idx)), key=lambda a_: ((False, 0) if metas[idx[a_]] is None else (metas[idx[a_]]['mode'] != 'default', len(cases[idx[a_]][3]))))
+    for a in order:
+        k = idx[a]
         c, ii, mm, m = cases[k], im[k], mo[a], metas[k]
         if mm and mm[0] == -999: print('ERROR: model rejected case', sx_str(mcases[a])[:300]); sys.exit(3)
         ndim, nvar = c[1], c[2]
@@ -618,8 +638,23 @@ def correspond_structs(ctx, exe, runner, cases, metas, by_code, viol):
         tol = max(tol_of(s[0]) for s in c[3])
         fieldy = any(s[0] in FIELD or s[0] == 12 for s in c[3])
         first = m['structs'][0] if m else None
+        def aniso_class(sm):
+            if sm is None: return None
+            if sm['rotspec'] and any(undy(t) != 0 for t in (sm['rotspec'][1] if sm['rotspec'][0] == 0 else [[1, 0]])) and len(set(sm['vals'])) > 1: return 'aniso:rotated-anisotropy'
+            if len(set(sm['vals'])) > 1: return 'aniso:anisotropic-ranges'
+            return None
         def report(site, what, q_repr, v, enc):
-            key = 'eval:%s:%s%s' % (site, first['short'] if first else '?', (':' + m['mode']) if m and m['mode'] != 'default' else '')
+            # attribution of the mismatch (stable keys): a structure whose closed form already failed > calculation mode >
+            # anisotropy / rotation > the structure itself > a sum of structures
+            names = [x['short'] for x in m['structs']] if m else []
+            culprit = next((n for n in names if n in ctx.bad_struct), None)
+            acls = [a_ for a_ in (aniso_class(x) for x in (m['structs'] if m else [])) if a_]
+            if culprit: key = ctx.bad_struct[culprit]
+            elif any(a_ in ctx.bad_aniso for a_ in acls): key = next(a_ for a_ in acls if a_ in ctx.bad_aniso)
+            elif m and m['mode'] != 'default': key = 'mode:%s' % m['mode']
+            elif acls and len(names) == 1: key = acls[0]; ctx.bad_aniso.add(key)
+            elif len(names) == 1: key = 'eval:%s:%s' % (site, names[0]); ctx.bad_struct[names[0]] = key
+            else: key = 'eval:sum:%s' % site
             return viol(key, '%s of a model with %s (mode %s) %s returns %r, the closed form with the range measured along the rotated axes gives %s'
                         % (site, [x['name'] for x in m['structs']] if m else '?', m['mode'] if m else '?', what, float(v) if v is not None else None,
                            [float(enc[0]), float(enc[1])] if enc else None),
@@ -700,6 +735,9 @@ def property_tests(ctx, exe, entries, by_code, viol, quick):
     cf = write_cases(ctx, 'props', cases)
     _, im = run_impl(ctx, exe, cf)
     ctx.support_found = {}
+    hits = {}
+    def hit(cls, e, text, rep):
+        hits.setdefault(cls, []).append((short(e), text, rep))
     for k in range(0, len(cases), 2):
         e, ndim, param, ranges, ang, tags, sill, _ = meta[k]
         a, b = (im[k] if k < len(im) else None), (im[k + 1] if k + 1 < len(im) else None)
@@ -719,26 +757,33 @@ def property_tests(ctx, exe, entries, by_code, viol, quick):
                 viol('undefined-value:' + short(e), 'covariance of %s undefined' % e['name'], rep); break
             # variogram form = C(0) - C(h)
             if abs(vario[i] - (c0 - cov[i])) > tolv:
-                viol('mode:asVario:' + short(e), "%s: the variogram mode returns %r, C(0) - C(h) = %r" % (e['name'], float(vario[i]), float(c0 - cov[i])),
+                hit('mode:asVario', e, "%s: the variogram mode returns %r, C(0) - C(h) = %r" % (e['name'], float(vario[i]), float(c0 - cov[i])),
                      dict(rep, case=sx_str([1, ndim, 1, cases[k][3], [1, 0, 0, []], [q], [], []]))); break
             if stationary and abs(cov[i]) > abs(c0) * (1 + F(1, 10 ** 12)):
-                viol('bound:|C(h)|<=C(0):' + short(e), '%s: |C(h)| = %r exceeds C(0) = %r' % (e['name'], float(abs(cov[i])), float(c0)), rep); break
+                hit('bound:|C(h)|<=C(0)', e, '%s: |C(h)| = %r exceeds C(0) = %r' % (e['name'], float(abs(cov[i])), float(c0)), rep); break
             if tag == '-h' and cov[i] != cov[i - 1]:
-                viol('symmetry:C(h)=C(-h):' + short(e), '%s: C(h) = %r but C(-h) = %r' % (e['name'], float(cov[i - 1]), float(cov[i])), rep); break
+                hit('symmetry:C(h)=C(-h)', e, '%s: C(h) = %r but C(-h) = %r' % (e['name'], float(cov[i - 1]), float(cov[i])), rep); break
             if e['support'] is not None and e['scadef'][0] == 'const':
                 # compact support: zero beyond the range, measured along the rotated axes; non-zero just inside the support
                 supp_over_range = e['support'] / e['scadef'][1]
                 if tag in ('beyond', 'far') and fac > supp_over_range and cov[i] != 0:
-                    viol('support:nonzero-beyond-support:' + short(e), '%s: C = %r at %s x range along rotated axis %d (support/range = %s)' % (e['name'], float(cov[i]), float(fac), ax + 1, supp_over_range), rep); break
+                    hit('support:nonzero-beyond-support', e, '%s: C = %r at %s x range along rotated axis %d (support/range = %s)' % (e['name'], float(cov[i]), float(fac), ax + 1, supp_over_range), rep); break
                 if tag == 'beyond' and fac <= supp_over_range and cov[i] != 0 and supp_over_range > 1:
                     ctx.support_found[e['code']] = True
                     viol(short(e) + ':nonzero-beyond-range', "'%s' does not vanish beyond its range: C = %r at %s x range along rotated axis %d (the closed form has support %s x range)"
                          % (e['name'], float(cov[i]), float(fac), ax + 1, supp_over_range), rep)
                 if tag == 'inside' and supp_over_range == 1 and cov[i] == 0 and e['code'] != 0:
-                    viol('support:range-on-wrong-axis:' + short(e), '%s: C = 0 at %s x range along rotated axis %d (ranges %s, angles %s): the range is not measured along the rotated axes'
+                    hit('support:range-on-wrong-axis', e, '%s: C = 0 at %s x range along rotated axis %d (ranges %s, angles %s): the range is not measured along the rotated axes'
                          % (e['name'], float(fac), ax + 1, [float(r) for r in ranges], [float(t) for t in ang]), rep); break
                 if tag == 'half' and supp_over_range == 1 and cov[i] == 0:
-                    viol('support:range-on-wrong-axis:' + short(e), '%s: C = 0 at half the range along rotated axis %d' % (e['name'], ax + 1), rep); break
+                    hit('support:range-on-wrong-axis', e, '%s: C = 0 at half the range along rotated axis %d' % (e['name'], ax + 1), rep); break
+    # a defect shared by several structures is reported once (it is not in their closed forms); otherwise under the structure's name
+    for cls, lst in hits.items():
+        names = sorted(set(x[0] for x in lst))
+        if len(names) > 1:
+            viol(cls, lst[0][1] + ' (same failure for %d structures: %s)' % (len(names), ', '.join(names)), lst[0][2])
+        else:
+            viol(cls + ':' + names[0], lst[0][1], lst[0][2])
 
 # ----------------------------------------------------------------------------------------------- PSD exploration
 def psd_exploration(ctx, exe, entries, by_code, table_fail, guard_vacuous, viol, quick):
@@ -757,10 +802,11 @@ def psd_exploration(ctx, exe, entries, by_code, table_fail, guard_vacuous, viol,
         for ndim, accepted in dims:
             for param in params_for(e, rng, True):
                 kinds = ['grid', 'cluster-fixed', 'clustered', 'random'] if ndim <= 3 else ['grid']
+                if ndim == 2: kinds.append('grid6')
                 rlist = [F(5, 4), F(13, 8), F(5, 2), F(4)] if quick else [F(3, 4), F(5, 4), F(13, 8), F(2), F(5, 2), F(3), F(4), F(6)]
                 if ndim == 4: rlist = [F(3, 4)] if quick else [F(1, 2), F(3, 4), F(5, 4)]
                 for kind in kinds:
-                    for rg in (rlist if kind == 'grid' else rlist[1:3]):
+                    for rg in (rlist if kind == 'grid' else [F(11, 8), F(3, 2), F(9, 4)] if kind == 'grid6' else rlist[1:3]):
                         pts = point_set(rng, kind, ndim, 18, m2=4)
                         if kind in ('clustered', 'random'): pts = [tuple(x / 4 for x in p) for p in pts]
                         if e['hasrange'] == -1: rg2 = rg * 8       # field large enough for the "covariance" form to be usable
